@@ -613,7 +613,7 @@ func c06R6(c *Ctx, p *Prog) {
 			return
 		}
 		fromTT := false
-		for v := range backSlice(ret.Results[0], sliceOpts{}) {
+		for v := range backSlice(returnedValue(ret, 0), sliceOpts{}) {
 			if isCallValueTo(v, "transp.(*entry).Value") {
 				fromTT = true
 			}
